@@ -45,7 +45,8 @@ ASSUMPTIONS = [
 FAULT_KINDS = ["scribble_temp:extreme", "scribble_temp:random",
                "buffer_overwritten_in_place", "rows_shuffled"]
 PROBES = ["dominance_pair_checked", "sparse_last_bin", "same_pair_again",
-          "packing_not_decoder_reachable", "dtype:int8", "dtype:int16",
+          "packing_not_decoder_reachable", "value_equals_lower_bound",
+          "dtype:int8", "dtype:int16",
           "dtype:int32", "multi_bin", "single_bin"] + [
     f"objective:{k}" for k in orc.OBJECTIVES]
 HARD_CAP_S = 120.0
@@ -71,6 +72,12 @@ def generate(rng: random.Random, batch: dict) -> dict:
                                 shipped_p=0.08)
     items = packgen.resolve_items(inst)
     packs = []
+    if rng.random() < 0.2:
+        # bins filled exactly + one tiny item alone in the last bin: the
+        # packing whose value sits right at the declared lower bound
+        inst, x0 = packgen.gen_exact_fill(rng)
+        items = inst["items"]
+        packs.append({"x": x0, "encoder": rng.choice([1, 2]), "edits": []})
     for _ in range(rng.choice([2, 2, 3, 4, 6])):
         base = [i + 1 for i, it in enumerate(items) for _ in range(it[2])]
         rng.shuffle(base)
@@ -227,6 +234,8 @@ def execute(doc: dict) -> dict:
                            f"definition gives {want}", objective=name)
             break
         lb, ub = o.lower_bound(), o.upper_bound()
+        if want == lb:
+            core.bump(res["probes"], "value_equals_lower_bound")
         if not lb <= want <= ub:
             core.violation(res, "value-outside-declared-bounds",
                            f"{where}: value {want} not in [{lb}, {ub}]",
